@@ -341,6 +341,44 @@ func checkC19(P *Prog, r *Result) {
 		})
 		return self && alloc
 	}
+	// the value is the result of a deep clone - here, or (for a parameter of an unexported helper) at every call site
+	var clonedHere func(fn *ssa.Function, v ssa.Value, depth int) (bool, string)
+	clonedHere = func(fn *ssa.Function, v ssa.Value, depth int) (bool, string) {
+		switch x := cvi(v).(type) {
+		case *ssa.Call:
+			if isDeepClone(callOf(x).static) {
+				return true, fname(callOf(x).static)
+			}
+		case *ssa.Parameter:
+			if depth > 2 || x.Parent() != fn {
+				return false, ""
+			}
+			idx := -1
+			for i, q := range fn.Params {
+				if q == x {
+					idx = i
+				}
+			}
+			sites, closed := P.closedCallSites(fn)
+			if idx < 0 || !closed || len(sites) == 0 {
+				return false, ""
+			}
+			name := ""
+			for _, site := range sites {
+				args := site.Common().Args
+				if idx >= len(args) {
+					return false, ""
+				}
+				ok, nm := clonedHere(site.Parent(), args[idx], depth+1)
+				if !ok {
+					return false, ""
+				}
+				name = nm
+			}
+			return true, name
+		}
+		return false, ""
+	}
 	ns := 0
 	for _, fn := range fns {
 		if isDeepClone(fn) {
@@ -355,9 +393,9 @@ func checkC19(P *Prog, r *Result) {
 			switch {
 			case ci.static.Name() == "Copy" && len(ci.args()) == 2:
 				src = ci.args()[1]
-				if c2, isCall := cvi(src).(*ssa.Call); isCall && isDeepClone(callOf(c2).static) {
+				if ok, nm := clonedHere(fn, src, 0); ok {
 					ns++
-					r.ok("C19/default-not-aliased", fmt.Sprintf("%s#element-copy@%d", fname(fn), ns), P.ipos(in), "the elements copied are those of a deep clone ("+fname(callOf(c2).static)+")")
+					r.ok("C19/default-not-aliased", fmt.Sprintf("%s#element-copy@%d", fname(fn), ns), P.ipos(in), "the elements copied are those of a deep clone ("+nm+")")
 					return
 				}
 			case ci.static.Name() == "Set" && len(ci.args()) == 2:
@@ -375,9 +413,9 @@ func checkC19(P *Prog, r *Result) {
 					return
 				}
 				src = ci.args()[1]
-				if c2, isCall := cvi(src).(*ssa.Call); isCall && isDeepClone(callOf(c2).static) {
+				if ok, nm := clonedHere(fn, src, 0); ok {
 					ns++
-					r.ok("C19/default-not-aliased", fmt.Sprintf("%s#element-copy@%d", fname(fn), ns), P.ipos(in), "the element is a deep clone ("+fname(callOf(c2).static)+")")
+					r.ok("C19/default-not-aliased", fmt.Sprintf("%s#element-copy@%d", fname(fn), ns), P.ipos(in), "the element is a deep clone ("+nm+")")
 					return
 				}
 			default:
